@@ -42,6 +42,10 @@ def upd {α : Type} (f : Int → α) (i : Int) (a : α) : Int → α := fun j =>
 @[simp] theorem upd_same {α : Type} (f : Int → α) (i : Int) (a : α) : upd f i a i = a := by simp [upd]
 theorem upd_other {α : Type} (f : Int → α) (i j : Int) (a : α) (h : j ≠ i) : upd f i a j = f j := by simp [upd, h]
 
+/-- `if (b) v[i] = a;` -/
+def updIf {α : Type} (b : Prop) [Decidable b] (f : Int → α) (i : Int) (a : α) : Int → α :=
+  fun j => if b ∧ j = i then a else f j
+
 /-- a vector given as a list, read with a default outside -/
 def ofList {α : Type} (d : α) (l : List α) : Int → α := fun i => if i < 0 then d else l.getD i.toNat d
 
@@ -138,12 +142,12 @@ def placeRaw (s : State) (c r p x : Int) : State :=
   { s with
     row := upd s.row c r
     orient := upd s.orient c (s.placedOrient c r)
-    rowFirst := if p = -1 then upd s.rowFirst r c else s.rowFirst
-    rowLast := if s.siteNext r p = -1 then upd s.rowLast r c else s.rowLast
+    rowFirst := updIf (p = -1) s.rowFirst r c
+    rowLast := updIf (s.siteNext r p = -1) s.rowLast r c
     -- cellNext_[pred] = c;  cellNext_[c] = next   (in this order)
-    next := upd (if p = -1 then s.next else upd s.next p c) c (s.siteNext r p)
+    next := upd (updIf (p ≠ -1) s.next p c) c (s.siteNext r p)
     -- cellPred_[c] = pred;  cellPred_[next] = c   (in this order)
-    pred := if s.siteNext r p = -1 then upd s.pred c p else upd (upd s.pred c p) (s.siteNext r p) c
+    pred := updIf (s.siteNext r p ≠ -1) (upd s.pred c p) (s.siteNext r p) c
     x := upd s.x c x
     y := upd s.y c (s.rowY r) }
 
@@ -158,12 +162,12 @@ def place (s : State) (c r p x : Int) : Except Err State :=
 def unplace (s : State) (c : Int) : State :=
   { s with
     row := upd s.row c (-1)
-    rowFirst := if s.pred c = -1 then upd s.rowFirst (s.row c) (s.next c) else s.rowFirst
-    rowLast := if s.next c = -1 then upd s.rowLast (s.row c) (s.pred c) else s.rowLast
+    rowFirst := updIf (s.pred c = -1) s.rowFirst (s.row c) (s.next c)
+    rowLast := updIf (s.next c = -1) s.rowLast (s.row c) (s.pred c)
     -- cellNext_[pred] = next;  cellNext_[c] = -1
-    next := upd (if s.pred c = -1 then s.next else upd s.next (s.pred c) (s.next c)) c (-1)
+    next := upd (updIf (s.pred c ≠ -1) s.next (s.pred c) (s.next c)) c (-1)
     -- cellPred_[c] = -1;  cellPred_[next] = pred
-    pred := if s.next c = -1 then upd s.pred c (-1) else upd (upd s.pred c (-1)) (s.next c) (s.pred c) }
+    pred := updIf (s.next c ≠ -1) (upd s.pred c (-1)) (s.next c) (s.pred c) }
 
 /-- `positionOnInsert` (x, y) -/
 def positionOnInsert (s : State) (c r p : Int) : Int × Int :=
@@ -281,24 +285,24 @@ def LinkOk (s : State) (c : Int) : Prop :=
     (s.next c = -1 → s.rowLast (s.row c) = c ∧ s.x c + s.width c ≤ s.rowMaxX (s.row c)))
 
 open State in
-/-- the orientation tests of `check()` (third loop, including the C04 addition) plus: the
-orientation is not INVALID, y is the row's, the width is non-negative, ignored cells are never
-placed -/
+/-- the orientation tests of `check()` (third loop, including the C04 addition) plus: an optimised
+cell's orientation is never INVALID and its width is positive; a placed cell is optimised (not
+ignored) and its y is its row's -/
 def CellOk (s : State) (c : Int) : Prop :=
-  s.row c ≠ -1 →
+  (s.width c ≠ -1 → s.orient c ≠ Orient.INVALID ∧ 0 < s.width c) ∧
+  (s.row c ≠ -1 →
+    s.width c ≠ -1 ∧
     cellOrientationInRow (s.pol c) (s.rowOrient (s.row c)) ≠ Orient.INVALID ∧
     (cellOrientationInRow (s.pol c) (s.rowOrient (s.row c)) ≠ Orient.UNKNOWN →
        s.orient c = cellOrientationInRow (s.pol c) (s.rowOrient (s.row c))) ∧
-    s.orient c ≠ Orient.INVALID ∧
-    s.y c = s.rowY (s.row c) ∧
-    0 ≤ s.width c
+    s.y c = s.rowY (s.row c))
 
 instance (s : State) (r : Int) : Decidable (RowOk s r) := by unfold RowOk; infer_instance
 instance (s : State) (c : Int) : Decidable (LinkOk s c) := by unfold LinkOk; infer_instance
 instance (s : State) (c : Int) : Decidable (CellOk s c) := by unfold CellOk; infer_instance
 
 /-- Everything `DetailedPlacement::check()` tests (the vector sizes are equal by construction of
-the record) + link symmetry + orientation ≠ INVALID + y on the row + widths ≥ 0. -/
+the record) + link symmetry + orientation ≠ INVALID + y on the row + positive widths of optimised cells. -/
 structure Inv (s : State) : Prop where
   rowsOk : ∀ r : Nat, r < s.nRows → RowOk s r
   linksOk : ∀ c : Nat, c < s.nCells → LinkOk s c
@@ -461,7 +465,7 @@ def siteOk (s : State) (r p : Int) : Bool :=
   decide (s.validRow r) && (p == -1 || (decide (s.validCell p) && s.row p == r))
 
 /-- a cell the optimiser may move: valid and optimised (not ignored) -/
-def liveCell (s : State) (c : Int) : Bool := decide (s.validCell c) && !s.isIgnored c && decide (0 ≤ s.width c)
+def liveCell (s : State) (c : Int) : Bool := decide (s.validCell c) && !s.isIgnored c
 
 /-- contract of a write-back: the unplaced cells are distinct live placed cells, the placed cells
 are exactly those, every region names a valid row and a predecessor that is -1 or a cell that
